@@ -130,3 +130,57 @@ Proof.
   split; vm_compute; reflexivity.
 Qed.
 Print Assumptions C06_hypotheses_satisfiable.
+
+(* ---------------------------------------------------------------------------------------------------------
+   The interface hypotheses DISCHARGED by composition (Model/MemoryKey.v, Proofs/MemoryKey.v): for the concrete key
+       key f args kwargs = md5 (stream (filter_args f args kwargs))
+   built from models M2 (Model/FilterArgs.v) and M3 (Model/HashEnc.v), and signatures in b-c07's fragment
+   [sig_in_fragment], key_complete and accepts are THEOREMS (key_complete_fragment, accepts_fragment): in the
+   fragment filter_args returns exactly Python's binding minus the ignored keys (C07 agree_partial +
+   ignore_removes), in every call form -- positional, keyword, defaults left implicit, **kwargs in any order.
+   No hypothesis on md5, on the hash stream or on the values is needed for completeness.
+   The boundary of the fragment: F1 / F2 / F3 (C06_complete_refuted_F2, C06_accepts_refuted_F3). *)
+From Coq Require Import ZArith.
+Require JV.Model.FilterArgs JV.Model.HashEnc.
+Require Import JV.Model.MemoryKey JV.Proofs.MemoryKey.
+
+Theorem C06_complete_fragment :
+  forall (md5 : list Z -> list Z) (vmap : Z -> HE.value) (nmap : Z -> list Z)
+         (uvalue usrc : Type) (usrc_eqb : usrc -> usrc -> bool) ucode upath unamed
+         (uf : usrc -> FA.binding -> uvalue) (s : FA.sig) (ign : list FA.key),
+  (forall a b, usrc_eqb a b = true <-> a = b) ->
+  FA.wf_sig s -> FA.sig_in_fragment s = true -> ign_ok s ign ->
+  let C := key_cfg md5 vmap nmap usrc_eqb ucode upath unamed uf s ign in
+  uniform C ->
+  forall h1 k c vld h2 k' c' b b' ki' v,
+  bind_spec C c = Some b -> bind_spec C c' = Some b' -> restrict C b = restrict C b' ->
+  canonicalise C c' = Ok ki' ->
+  forallb (quiet C (code C k)) h2 = true ->
+  let st1 := final C init h1 in
+  (fst (step C st1 (Call k c vld)) = OHit v \/ fst (step C st1 (Call k c vld)) = OMiss v) ->
+  let st3 := final C (snd (step C st1 (Call k c vld))) h2 in
+  fst (step C st3 (Call k' c' true)) = OSkip \/ exists v', fst (step C st3 (Call k' c' true)) = OHit v'.
+Proof.
+  intros md5 vmap nmap uvalue usrc usrc_eqb ucode upath unamed uf s ign Hs Hwf Hfr Hok C UN.
+  apply (complete_uniform C odigest_eqb_spec Hs); auto.
+  exact (key_complete_fragment md5 vmap nmap usrc_eqb ucode upath unamed uf s ign Hwf Hfr Hok).
+Qed.
+Print Assumptions C06_complete_fragment.
+
+(* in the fragment the wrapper accepts every call that Python binds, in every state *)
+Theorem C06_accepts_fragment :
+  forall (md5 : list Z -> list Z) (vmap : Z -> HE.value) (nmap : Z -> list Z)
+         (uvalue usrc : Type) (usrc_eqb : usrc -> usrc -> bool) ucode upath unamed
+         (uf : usrc -> FA.binding -> uvalue) (s : FA.sig) (ign : list FA.key),
+  FA.wf_sig s -> FA.sig_in_fragment s = true -> ign_ok s ign ->
+  let C := key_cfg md5 vmap nmap usrc_eqb ucode upath unamed uf s ign in
+  forall (st : state FA.call (option (list Z)) uvalue usrc) k c vld b,
+  bind_spec C c = Some b ->
+  fst (step C st (Call k c vld)) = OSkip \/
+  exists v, fst (step C st (Call k c vld)) = OHit v \/ fst (step C st (Call k c vld)) = OMiss v.
+Proof.
+  intros md5 vmap nmap uvalue usrc usrc_eqb ucode upath unamed uf s ign Hwf Hfr Hok C st k c vld b Hb.
+  apply (call_accepts C st k c vld b); auto.
+  exact (accepts_fragment md5 vmap nmap usrc_eqb ucode upath unamed uf s ign Hwf Hfr Hok).
+Qed.
+Print Assumptions C06_accepts_fragment.
